@@ -687,3 +687,17 @@ def lemma_pk_framing():
 
 
 LEMMAS.append(lemma_pk_framing)
+
+
+# ---- leaf: Commitment (one compressed G1 point): encode / decode are exactly the dependency's canonical codec, nothing in front of it
+def c_commitment_from_bytes(it, recv, a):
+    it.ctx.exits.append(("try", canon(VOpaque("G1Affine::from_slice", [a[0]]))))
+    return VOk(VOpaque("Self", [VOpaque("ok_of", [VOpaque("G1Affine::from_slice", [a[0]])])]))
+
+
+u = unit("serial.Commitment.from_bytes", "src/commitment_scheme/kzg10/commitment.rs", "<Commitment as Serializable<{G1Affine::SIZE}>>::from_bytes", [("buf", sym("buf"))],
+         c_commitment_from_bytes, lambda res, args, ctx: {"exits": list(ctx.exits), "result": res})
+u.extra_contracts = {"G1Affine::from_slice": lambda it, recv, a: VOpaque("G1Affine::from_slice", list(a)), "Self": lambda it, recv, a: VOpaque("Self", list(a)),
+                     "Commitment": lambda it, recv, a: VOpaque("Self", list(a)), "G1Affine::identity": lambda it, recv, a: VOpaque("G1Affine::identity")}
+u = unit("serial.Commitment.to_bytes", "src/commitment_scheme/kzg10/commitment.rs", "<Commitment as Serializable<{G1Affine::SIZE}>>::to_bytes", [("self", sym("self"))],
+         lambda it, recv, a: VOpaque("to_bytes", [Sym("self.0")]), lambda res, args, ctx: {"result": res})
